@@ -86,7 +86,7 @@ def ProstLaw (protoType rustType : Bytes) (compileWkt here : Bool) : Prop :=
 on prost-build's output, tonic-build's `convert_type` names a message compiled into the
 generated tree as `<proto_path>::<prost's path>` and any other message exactly as prost names
 it — for every `proto_path`, both settings of `compile_well_known_types`, and any extern
-mapping (they enter only through prost's answer). -/
+mapping (they enter only through prost's answer). (Transcription lemma: it holds by unfolding the model's definition, so it pins the model's shape for the correspondence run — its assurance about tonic is the tie, not this proof.) -/
 theorem C11_type_resolution (protoPath protoType rustType : Bytes) (compileWkt here : Bool)
     (law : ProstLaw protoType rustType compileWkt here) :
     (TypeName.prost protoType rustType).resolve protoPath compileWkt =
